@@ -214,7 +214,11 @@ func CloneNode(node ast.Node) ast.Node {
 		return ast.NewReturn(ClonePosition(n.Position), values)
 
 	case *ast.Raw:
-		return ast.NewRaw(ClonePosition(n.Position), n.Marker, n.Tag, CloneNode(n.Text).(*ast.Text))
+		var text *ast.Text
+		if n.Text != nil {
+			text = CloneNode(n.Text).(*ast.Text)
+		}
+		return ast.NewRaw(ClonePosition(n.Position), n.Marker, n.Tag, text)
 
 	case *ast.Select:
 		var text *ast.Text
